@@ -721,3 +721,15 @@ func Exploring(on bool) {
 		x.quiet = !on
 	}
 }
+
+// AfterFunc runs fn on a thread of its own after d of virtual time; the returned function
+// cancels it. Without an execution it is time.AfterFunc.
+func AfterFunc(d time.Duration, fn func()) (stop func()) {
+	x := active.Load()
+	if x == nil {
+		t := time.AfterFunc(d, fn)
+		return func() { t.Stop() }
+	}
+	t := x.addTimer(d, 0, nil, fn)
+	return func() { t.stopped = true }
+}
